@@ -304,7 +304,7 @@ func (m *Machine) stub(fn *ssa.Function, args []Val) (r Val, ok bool) {
 		return ctz(args[0].(*Term)), true
 	case "math/bits.Len64", "math/bits.Len32", "math/bits.Len":
 		return bitlen(args[0].(*Term)), true
-	case "fmt.Sprintf", "fmt.Sprint", "strconv.Quote", "strconv.Itoa":
+	case "fmt.Sprintf", "fmt.Sprint", "strconv.Quote", "strconv.Itoa", "time.quote":
 		return m.strObj("<opaque>"), true
 	case "fmt.Errorf":
 		return m.newError("errors", "errorString"), true
